@@ -15,16 +15,18 @@
      `k+c`, `k.c`, `k#c` on the alias side;
    * the two-snippet cycle of C14_cyclic_cut_refuted shows why the hypothesis is there;
    * complete sweep of the built-in tables (which contain self-references such as a = a[href]) at string level.
-   NOT proved for all tables: the decorated forms with the definition written textually in place
-   (`d>c`, `(d)*N`, the attributes written into d): that `parse(d>c)` is `parse(d)` with c under find_deepest
-   needs the side conditions of the code -- d ends with an element, not a text node (the converter makes
-   the children of a text-only node its siblings), no repeater on the last-child chain (`x*2>b` repeats b), no
-   group at the end, no alias on the chain that resolves to nothing -- and a compositionality theorem for
-   tokenizer + parser + converter that is not done; these forms are covered by the sweep (built-in tables)
-   and by the random user tables of the harness. *)
+   * the decoration moved onto the parsed definition D (C14_alias_attributes_pre / _repeat_pre / _text_pre /
+     _self_closing_pre, and _children_pre under the side condition that no node on D's last-child chain resolves
+     to nothing -- C14_dead_chain_differs shows it is needed).
+   NOT proved for all tables: that the TEXT `d>c` (resp. d with the attributes / `*N` written on its top-level
+   elements) parses to D with c hung below find_deepest (resp. D with the decoration): this is a
+   compositionality theorem for tokenizer + parser + converter with the side conditions of the code -- d ends
+   with an element, not a text node (the converter makes the children of a text-only node its siblings), no
+   repeater on the last-child chain (`x*2>b` repeats b), no group at the end; these textual forms are covered
+   by the sweep (built-in tables) and by the random user tables of the harness. *)
 From Emmet Require Import lib.Base model.MarkupTokenizer model.MarkupParser model.MarkupConvert
      model.MarkupResolve model.MarkupExpand proofs.SnippetProofs proofs.SnippetSweep
-     proofs.SnippetAcyclic proofs.SnippetAliasParse proofs.SnippetAliasForms.
+     proofs.SnippetAcyclic proofs.SnippetAliasParse proofs.SnippetAliasForms proofs.SnippetDecorate.
 
 (* termination, for ALL snippet tables and ALL trees: with the fuel markup_parse supplies
    (number of snippets + 1) the resolver never reports OutOfFuel *)
@@ -292,6 +294,85 @@ Theorem C14_alias_children :
     end.
 Proof. exact alias_children. Qed.
 Print Assumptions C14_alias_children.
+
+(* ---------------------------------------------------------------- the decoration moved onto the definition:
+   the decorated alias resolves like the PARSED DEFINITION (D = the forest resolve() reads the definition as)
+   with the decoration put on it, resolved in the alias' place -- "the definition written in place, with the
+   attributes on each of its top-level elements / the child under its deepest element", as trees *)
+Theorem C14_alias_attributes_pre :
+  forall (cfg : mconfig) (k d : str) (D : list anode) a X,
+    def_of cfg (Some k) = Some d -> self_free cfg d = true -> parse_def cfg d = Ok D ->
+    walk_resolve (full_fuel cfg) cfg [] [ANode (Some k) None None (Some (a :: X)) [] false] =
+    walk_resolve (full_fuel cfg) cfg [] (map (add_attrs (mc_reverse_attrs cfg) (a :: X)) D).
+Proof. exact alias_attributes_pre. Qed.
+Print Assumptions C14_alias_attributes_pre.
+
+Theorem C14_alias_repeat_pre :
+  forall (cfg : mconfig) (k d : str) (D : list anode) r,
+    def_of cfg (Some k) = Some d -> self_free cfg d = true -> parse_def cfg d = Ok D ->
+    walk_resolve (full_fuel cfg) cfg [] [ANode (Some k) None (Some r) None [] false] =
+    walk_resolve (full_fuel cfg) cfg [] (map (set_repeat r) D).
+Proof. exact alias_repeat_pre. Qed.
+Print Assumptions C14_alias_repeat_pre.
+
+Theorem C14_alias_text_pre :
+  forall (cfg : mconfig) (k d : str) (D : list anode) x,
+    def_of cfg (Some k) = Some d -> self_free cfg d = true -> parse_def cfg d = Ok D ->
+    walk_resolve (full_fuel cfg) cfg [] [ANode (Some k) (Some x) None None [] false] =
+    walk_resolve (full_fuel cfg) cfg [] (map (set_value x) D).
+Proof. exact alias_text_pre. Qed.
+Print Assumptions C14_alias_text_pre.
+
+Theorem C14_alias_self_closing_pre :
+  forall (cfg : mconfig) (k d : str) (D : list anode),
+    def_of cfg (Some k) = Some d -> self_free cfg d = true -> parse_def cfg d = Ok D ->
+    walk_resolve (full_fuel cfg) cfg [] [ANode (Some k) None None None [] true] =
+    walk_resolve (full_fuel cfg) cfg [] (map set_self D).
+Proof. exact alias_self_closing_pre. Qed.
+Print Assumptions C14_alias_self_closing_pre.
+
+(* children: with the side condition of the code -- every node on the last-child chain of the definition
+   resolves to a non-empty forest ([live]; in particular when no node of the chain is an alias,
+   [plain_chain]) -- and when the definition and the children resolve *)
+Theorem C14_alias_children_pre :
+  forall (cfg : mconfig) (k d : str) (D ch R K : list anode),
+    def_of cfg (Some k) = Some d -> self_free cfg d = true -> parse_def cfg d = Ok D ->
+    live cfg (length (mc_snippets cfg)) [] D ->
+    walk_resolve (full_fuel cfg) cfg [] D = Ok R -> walk_resolve (full_fuel cfg) cfg [] ch = Ok K ->
+    walk_resolve (full_fuel cfg) cfg [] [ANode (Some k) None None None ch false] =
+    walk_resolve (full_fuel cfg) cfg [] (attach_deepest D ch).
+Proof. exact alias_children_pre. Qed.
+Print Assumptions C14_alias_children_pre.
+
+Theorem C14_alias_children_pre_plain :
+  forall (cfg : mconfig) (k d : str) (D ch R K : list anode),
+    def_of cfg (Some k) = Some d -> self_free cfg d = true -> parse_def cfg d = Ok D ->
+    plain_chain cfg [] D ->
+    walk_resolve (full_fuel cfg) cfg [] D = Ok R -> walk_resolve (full_fuel cfg) cfg [] ch = Ok K ->
+    walk_resolve (full_fuel cfg) cfg [] [ANode (Some k) None None None ch false] =
+    walk_resolve (full_fuel cfg) cfg [] (attach_deepest D ch).
+Proof. exact alias_children_pre_plain. Qed.
+Print Assumptions C14_alias_children_pre_plain.
+
+(* resolution commutes with hanging a forest below find_deepest, for ANY forest with a live chain, any
+   stack and fuel (the lemma behind it) *)
+Theorem C14_attach_resolve :
+  forall (cfg : mconfig) (f : nat) (st : list str) (D : list anode), live cfg f st D ->
+  forall R X K, walk_resolve (S f) cfg st D = Ok R -> walk_resolve (S f) cfg st X = Ok K ->
+    walk_resolve (S f) cfg st (attach_deepest D X) = Ok (attach_deepest R K).
+Proof. exact attach_resolve. Qed.
+Print Assumptions C14_attach_resolve.
+
+(* why the side condition: k = `p>e`, e = `()` (a definition that resolves to nothing): `k>b` puts b into p,
+   the definition in place `p>e>b` loses it; the same on the implementation (corpus/C14/dead-chain-*.json) *)
+Theorem C14_dead_chain_differs :
+  self_free void_cfg [112;62;101]%N = true /\
+  exists D t1 t2, parse_def void_cfg [112;62;101]%N = Ok D /\
+    walk_resolve (full_fuel void_cfg) void_cfg [] [ANode (Some [107]%N) None None None [ANode (Some [98]%N) None None None [] false] false] = Ok t1 /\
+    walk_resolve (full_fuel void_cfg) void_cfg [] (attach_deepest D [ANode (Some [98]%N) None None None [] false]) = Ok t2 /\
+    t1 <> t2.
+Proof. exact dead_chain_differs. Qed.
+Print Assumptions C14_dead_chain_differs.
 
 (* the decorated alias as a STRING, alias side (k, c key texts; the child / sibling c may itself be an
    alias): what markup_parse makes of `k>c`, `k+c`, `k.c`, `k#c` in terms of the definition resolved in
